@@ -47,9 +47,10 @@ fn gen_history(rng: &mut Rng, maxlen: usize, ncalls: usize, out: &mut Vec<String
 
 pub fn gen(tier: &str, rng: &mut Rng, out: &mut Vec<String>) {
     let thorough = tier == "thorough";
-    let nhist = if thorough { 40000 } else { 2500 };
+    let nhist = if thorough { 40000 } else { 6000 };
     for i in 0..nhist {
-        let maxlen = if thorough { [6, 8, 10, 12][i % 4] } else { [5, 7, 9, 10][i % 4] };
+        // mostly short (many ties, many equal sub-ranges), one history in eight longer
+        let maxlen = if thorough { [6, 8, 10, 12, 7, 9, 11, 18][i % 8] } else { [5, 7, 9, 10, 6, 8, 10, 16][i % 8] };
         let ncalls = 1 + rng.below(9);
         gen_history(rng, maxlen, ncalls, out);
     }
